@@ -165,13 +165,13 @@ impl Lane for C11 {
         };
         let max = if rng.chance(1, 5) { max } else { max.min(20) };
         let (d, e) = if rng.chance(1, 2) {
-            let n1 = draw_order_tail(rng, max).min(200);
+            let n1 = if rng.chance(1, 150) { draw_order_tail(rng, max).max(300).min(1200) } else { draw_order_tail(rng, max).min(200) };
             let n2 = match rng.below(4) {
                 0 => n1,
                 1 => rng.range(1, n1),
                 _ => draw_order(rng, max),
             };
-            let (p1, p2) = if n1 > 100 { (15, 30) } else { (draw_density(rng), draw_density(rng)) };
+            let (p1, p2) = if n1 > 250 { (2, 3) } else if n1 > 100 { (15, 30) } else { (draw_density(rng), draw_density(rng)) };
             (random_dg(rng, n1, p1), random_dg(rng, n2, p2))
         } else {
             draw_map_pair(rng, max.min(40))
@@ -211,7 +211,8 @@ impl Lane for C11 {
             st.bump("probe/union_partially_overlapping_vertex_sets");
         }
         // threaded implementations: every configuration of the scenario
-        if d.is_contiguous() {
+        let giant = d.order().max(e.order()) > 250;
+        if d.is_contiguous() && !giant {
             vs.extend(run_top(&TOp::ListComplement { d: d.clone() }, &sc.confs, st, "contiguous"));
         }
         if both_contig {
@@ -223,10 +224,12 @@ impl Lane for C11 {
             st.case(&[vmodel::rng::digest(serde_json::to_string(&sc.body).unwrap().as_bytes())]);
         }
         // sequential implementations: once per input (no schedule to vary)
-        let comp = d.complement();
+        let comp = if giant { Dg::empty(1) } else { d.complement() };
         let conv = d.converse();
         let uni = d.union(e);
-        seq_unary::<AdjacencyMap>(st, &mut vs, "complement", d, &comp, |g| g.complement());
+        if !giant {
+            seq_unary::<AdjacencyMap>(st, &mut vs, "complement", d, &comp, |g| g.complement());
+        }
         seq_unary::<AdjacencyMap>(st, &mut vs, "converse", d, &conv, |g| g.converse());
         let keep2 = keep.clone();
         seq_unary::<AdjacencyMap>(st, &mut vs, "filter_vertices", d, &d.induced(keep), move |g| {
@@ -234,9 +237,11 @@ impl Lane for C11 {
         });
         if d.is_contiguous() {
             seq_unary::<AdjacencyList>(st, &mut vs, "converse", d, &conv, |g| g.converse());
-            seq_unary::<AdjacencyMatrix>(st, &mut vs, "complement", d, &comp, |g| g.complement());
+            if !giant {
+                seq_unary::<AdjacencyMatrix>(st, &mut vs, "complement", d, &comp, |g| g.complement());
+                seq_unary::<EdgeList>(st, &mut vs, "complement", d, &comp, |g| g.complement());
+            }
             seq_unary::<AdjacencyMatrix>(st, &mut vs, "converse", d, &conv, |g| g.converse());
-            seq_unary::<EdgeList>(st, &mut vs, "complement", d, &comp, |g| g.complement());
             seq_unary::<EdgeList>(st, &mut vs, "converse", d, &conv, |g| g.converse());
             weighted_converse(st, &mut vs, d, *wseed);
         }
